@@ -281,7 +281,7 @@ def worker(item):
 def explore(tier, seed, nproc):
     pal = seed % 3
     H = harness_specs(pal)
-    nets = [(k, H[k]) for k in ("chain", "merge", "bifurcation", "twobytwo", "cycle_ramp")]
+    nets = [(k, H[k]) for k in ("chain", "merge", "bifurcation", "twobytwo", "cycle_ramp", "interior_ramps", "merge_ramp")]
     nets += [("chain-reversed", H["chain"]), ("twobytwo-reversed", H["twobytwo"])]
     # family A: every history over the full alphabet up to ka, plus every history over the core alphabet up to kc
     ka, kc = (2, 3) if tier == "quick" else (3, 4)
